@@ -1,19 +1,45 @@
 (* C16 — Tokens tile the input with exact offsets and line numbers.
-   This file contains only statements, `exact` and Print Assumptions. *)
-From Spok Require Import Base Lexer DecodeSpec LexInv.
+   Statements + `exact` + Print Assumptions only.
 
-(* What a finished scan looks like (LexInv.Final): no fault, the stream ends in ERROR or EOF, the tokens
-   before it tile the input (LexInv.Tiled: value = slice at the recorded offset, increasing offsets,
-   whitespace-only gaps, line = 1 + newlines before the offset), and a final EOF sits at |input|. *)
+   `lex s` is the byte-level model of lexer.New(s) read up to its first EOF or ERROR token (every helper and every
+   state function of lexer.go transliterated, slice faults and fuel exhaustion as explicit flags).
+   `Tiled s e toks` (LexInv.v) says: the tokens toks, in order, cover s[0..e) - each is not an ERROR, its value is the
+   slice of s at its recorded offset, it starts after the previous one with only whitespace runes (sp_run) in between,
+   its line is 1 + the number of newlines before its offset, and an EOF token sits at offset |s|. *)
+From Spok Require Import Base Lexer DecodeSpec LexInv LexSteps.
 
-(* PARTIAL (work in progress): the invariant framework and the step lemmas of the states proved so far.
-   The full statement `forall s, Final (run (fuel s) SStart (init s))` is the target. *)
-Theorem C16_partial_lexStart : forall l done e g, Inv l done e g -> Pre SStart l ->
-  StepOK (fst (lexStart l)) (snd (lexStart l)).
-Proof. exact lexStart_ok. Qed.
-Print Assumptions C16_partial_lexStart.
+(* For EVERY byte string: no fault, no fuel exhaustion (the stream is finite), the stream ends in ERROR or EOF, everything
+   before a final ERROR tiles a prefix of the input, and a stream ending in EOF tiles the whole input with EOF at the end. *)
+Theorem C16_tiling : forall s,
+  fst (lex s) = FOk /\
+  exists front t, snd (lex s) = front ++ [t] /\
+    ((ty t = ERROR /\ exists e, Tiled s e front) \/ (ty t = EOF /\ exists e, Tiled s e (front ++ [t]))).
+Proof. exact lex_tiles. Qed.
+Print Assumptions C16_tiling.
 
-Theorem C16_partial_lexComment : forall l done e g, Inv l done e g -> Pre SComment l ->
-  StepOK (fst (lexComment l)) (snd (lexComment l)).
-Proof. exact lexComment_ok. Qed.
-Print Assumptions C16_partial_lexComment.
+(* what tiling gives for each token ... *)
+Theorem C16_each_token : forall s e toks, Tiled s e toks -> forall t, In t toks ->
+  ty t <> ERROR /\ val t = firstn (length (val t)) (skipn (tpos t) s) /\ tpos t + length (val t) <= length s /\
+  tline t = S (nl (firstn (tpos t) s)) /\ (ty t = EOF -> tpos t = length s) /\ tpos t + length (val t) <= e.
+Proof. exact Tiled_each. Qed.
+Print Assumptions C16_each_token.
+
+(* ... and for neighbours: increasing, non-overlapping offsets with nothing but whitespace in between *)
+Theorem C16_between_tokens : forall s e toks, Tiled s e toks -> forall a t u b, toks = a ++ t :: u :: b ->
+  exists g, tpos u = tpos t + length (val t) + g /\ sp_run (skipn (tpos t + length (val t)) s) g.
+Proof. exact Tiled_gap. Qed.
+Print Assumptions C16_between_tokens.
+
+(* every state function keeps the invariant, never faults, and hands over a state whose precondition holds *)
+Theorem C16_every_state : forall s l d e g, Inv l d e g -> Pre s l -> s <> SDone -> StepOK s l (step s l).
+Proof. exact step_ok. Qed.
+Print Assumptions C16_every_state.
+
+(* non-vacuity: CRLF line ends, a multi-byte name, a one-line body, a comment - tokens with offsets and lines *)
+Example C16_nonvacuous :
+  let s := [35; 32; 100; 13; 10; 116; 97; 115; 107; 32; 195; 169; 40; 41; 32; 123; 32; 108; 115; 32; 125; 13; 10]%N in
+  map (fun t => (ty t, tpos t, tline t)) (snd (lex s))
+  = [(HASH, 0, 1); (COMMENT, 1, 1); (TASK, 5, 2); (IDENT, 10, 2); (LPAREN, 12, 2); (RPAREN, 13, 2); (LBRACE, 15, 2);
+     (COMMAND, 17, 2); (RBRACE, 20, 2); (EOF, 23, 3)]%nat.
+Proof. vm_compute. reflexivity. Qed.
+Print Assumptions C16_nonvacuous.
